@@ -288,13 +288,18 @@ def run_c17(prop, tier, seed, t0):
     if not quick:
         build("asan-dbg", ["bufconf"])
         jobs += buf_jobs("asan-dbg", "faults", seed + 3, n, ["--count", cnt], "asan-dbg", kind="asan", env=ASAN_ENV, crash="violation", parity=False)
+    # serde visit_seq fed by a SeqAccess with lying size hints / injected errors (feature serde)
+    build("dbg-serde", ["cmpfmt"])
+    exe = binpath("dbg-serde", "cmpfmt")
+    for s in range(4):
+        jobs.append(Job(f"serdelie:{s}", [exe, "serdelie", "--seed", str(seed), "--shard", str(s), "--nshards", "4"], build="dbg-serde", crash="violation", timeout=1200))
     nm = 6 if quick else 24
     mj = buf_miri("faults", [["--seed", str(seed), "--shard", str(k), "--nshards", str(nm * (12 if quick else 3)), "--count", "8" if quick else "40"] for k in range(nm)], "miri-flt", seed, ignore_leaks=False)
     for j in mj:
         j.crash = "violation"
     jobs += mj
     rule = ("fault injection: a Buf written in safe code lies according to a plan (which trait call number misreports: remaining +1/+9/-1/usize::MAX/0, chunk shorter/empty/a different valid slice, advance ignored/halved/doubled, or panics; chunks_vectored returning more than dst.len(); a call budget makes every schedule terminate), "
-            "plus AsRef owners answering differently per call / panicking and iterators with wrong size_hints. 30 crate entry points consume them (every getter row, copy_to_slice/bytes incl. Chain/Take, chunks_vectored via Take/Chain, put into Vec/BytesMut/slices/Limit/Chain, Reader, IntoIter, from_owner, Extend/FromIterator, forwarding impls). "
+            "plus AsRef owners answering differently per call / panicking and iterators with wrong size_hints. 30 crate entry points plus serde's visit_seq (lying SeqAccess::size_hint, injected element errors) consume them (every getter row, copy_to_slice/bytes incl. Chain/Take, chunks_vectored via Take/Chain, put into Vec/BytesMut/slices/Limit/Chain, Reader, IntoIter, from_owner, Extend/FromIterator, forwarding impls). "
             "Exhaustive over entry x first lying call<=6 x 12 lie codes, then seeded multi-lie schedules. Oracle: ledger violations, ledger leak balance after unwinding, ASan/LSan, Miri, process status; wrong results and panics are allowed. "
             "A cell = (entry point | outcome ok/panic/budget | number of lies).")
     return run_and_finish(prop, tier, seed, t0, jobs, rule, level="fault_enumeration", key="fault_cases",
